@@ -32,6 +32,17 @@ Proof.
   rewrite !shard_child_id by assumption. rewrite N.add_0_r. reflexivity.
 Qed.
 
+Lemma get_parents_all l q : l <= 63 -> q < 2 ^ l ->
+  get_parents (q * 2 ^ (64 - l)) l false false = [shard_id l q] /\
+  (1 <= l -> get_parents (q * 2 ^ (64 - l)) l true false = [shard_id (l - 1) (q / 2)]) /\
+  (l <= 62 -> forall split, get_parents (q * 2 ^ (64 - l)) l split true
+                            = [shard_id (l + 1) (2 * q); shard_id (l + 1) (2 * q + 1)]).
+Proof.
+  intros Hl Hq. split; [exact (get_parents_same l q Hl)|]. split.
+  - intros H1. exact (get_parents_split l q H1 Hl Hq).
+  - intros H62 sp. exact (get_parents_merge l q sp H62 Hq).
+Qed.
+
 (** ** MatchBlockID: true exactly when the shorter of the two prefixes is a
        prefix of the longer one (one shard is an ancestor of, or equal to, the other) *)
 Lemma prefix_div_shape t t' q : t <= t' ->
